@@ -2007,6 +2007,10 @@ class FnTranslator:
                 continue
             if v in env or v == "self":
                 free.append(v)
+        # canonical order: the order of declaration in the enclosing function (not the order of use)
+        decl = ["self"] + [n for n in env if n != "self"]
+        mut.sort(key=lambda v: decl.index(v) if v in decl else len(decl))
+        free.sort(key=lambda v: decl.index(v) if v in decl else len(decl))
         return mut, free
 
     def tuple_of(self, names):
